@@ -225,6 +225,7 @@ fn gen_service(rng: &mut Rng, cfg: &TypeCfg, env: &REnv) -> RType {
 
 pub fn run(ctx: &mut Ctx) {
     // candid prints opt-rule warnings to stderr from service_compatible: silence fd 2 for this worker
+    #[cfg(not(miri))]
     unsafe {
         let devnull = libc::open(b"/dev/null\0".as_ptr() as *const libc::c_char, libc::O_WRONLY);
         if devnull >= 0 {
